@@ -434,6 +434,7 @@ class Session:
             m.before_op(self, line)
         res, err, warned, sink = self._run(lambda: call_op(s, line))
         self.expect += sink
+        self.last_warned = warned
         self._finish(err, warned, True)
         for m in self.monitors:
             m.after_op(self, line, err, valid)
